@@ -113,6 +113,11 @@ pub fn run(ctx: &Ctx) -> ! {
         crate::c01_builders::run(ctx, &mut st);
     }
 
+    // ---- row format: decode of foreign rows (parse / from_binary / push histories)
+    if ctx.replay.is_none() {
+        crate::c01_rows::run(ctx, &mut st);
+    }
+
     // ---- record batches: RecordBatch construction + slicing + projection
     let mut rb = 0u64;
     for dt in grid.iter().filter(|_| ctx.replay.is_none()) {
@@ -144,7 +149,7 @@ pub fn run(ctx: &Ctx) -> ! {
         ctx,
         Level {
             category: "exploration",
-            rule: "program enumeration: for every array of U (grid type x column of length <= N over a 4-letter alphabet plus null x layout with <= 1 deviation) every program k1 (all unary kernels, and all binary kernels with a sliced second operand), and for the shaping kernels (selection, cast, sort, row round trip, dictionary gc) every program k1 | k2 with k2 ranging over the whole alphabet, the stage-1 output being passed on exactly as produced; every array returned by any stage is validated by the independent spec validator and by validate_full. A program is non-trivial when its input column is non-empty".into(),
+            rule: "program enumeration: for every array of U (grid type x column of length <= N over a 4-letter alphabet plus null x layout with <= 1 deviation) every program k1 (all unary kernels, and all binary kernels with a sliced second operand), and for the shaping kernels (selection, cast, sort, row round trip, dictionary gc) every program k1 | k2 with k2 ranging over the whole alphabet, the stage-1 output being passed on exactly as produced; every array returned by any stage is validated by the independent spec validator and by validate_full. A program is non-trivial when its input column is non-empty. Builder histories: see the builders sub-engine. Row format: every binary column of length <= 2 (3) over 9 (11) valid / invalid UTF-8 fragments + null, encoded by a Binary converter, decoded by the string converter of the same shape (plain, struct, list, fixed-size list, dictionary x Utf8 / LargeUtf8 / Utf8View x 2 sort options) through parse, parse + push, from_binary; all histories start in {empty_rows, from_binary(valid), from_binary(invalid), convert_columns} x pushes of length <= 3 (4) over {trusted, parsed valid, parsed invalid}: convert_rows must refuse or return well-formed arrays".into(),
             assumptions: vec![
                 "validate_full's rejection 'null_bit_buffer size too small' is ignored (it compares the validity byte length with data.offset although the NullBuffer carries its own offset); the independent validator performs the correct check".into(),
                 "stages that return an error or panic produce no array and end the program".into(),
